@@ -39,23 +39,19 @@ parts = [
      requires=["context@.len() <= isize::MAX"],
      ensures=[("C19:pong_carries_the_context", "payload(r) == pong_body(context@)"),
               ("C19:pong_is_a_single_command_frame", "r.flags == (MsgFlags { more: false, command: true }) && r.data is Some")],
-     extra=[("R8", 'b"\\x04PONG"', "lit_pong()", 1)],
      hints=[("ext", "re:let mut msg = Msg::from_vec\\(body\\);", 0, "before", "proof { assert(body@ =~= pong_body(context@)); }")]),
   Fn(CMD, "create_ping", impl=r"impl\s+ZmtpCommand\b", emit_impl="impl ZmtpCommand",
      requires=["context@.len() <= isize::MAX"],
      ensures=[("C19:ping_body", "payload(r) == PING_TAG() + to_be16(ttl as nat) + context@"),
               ("C19:ping_is_a_single_command_frame", "r.flags == (MsgFlags { more: false, command: true }) && r.data is Some")],
-     extra=[("R8", 'b"\\x04PING"', "lit_ping()", 1),
-            ("R3", "&ttl.to_be_bytes()", "verif_u16_to_be(ttl).as_slice()", 1)],
+     extra=[("R3", "&ttl.to_be_bytes()", "verif_u16_to_be(ttl).as_slice()", 1)],
      hints=[("ext", "re:let mut msg = Msg::from_vec\\(body\\);", 0, "before", "proof { assert(body@ =~= PING_TAG() + to_be16(ttl as nat) + context@); }")]),
   Fn(CMD, "parse", impl=r"impl\s+ZmtpCommand\b", emit_impl="impl ZmtpCommand",
      ensures=[("C19:ping_recognised", "is_ping(*msg) <==> (r matches Some(ZmtpCommand::Ping(_)))"),
               ("C19:ping_context_extracted", "r matches Some(ZmtpCommand::Ping(c)) ==> c@ == ping_ctx(*msg)"),
               ("C19:pong_recognised", "is_pong(*msg) <==> (r matches Some(ZmtpCommand::Pong(_)))"),
               ("C07:non_command_is_none", "(!msg.flags.command || msg.flags.more) ==> r is None")],
-     extra=[("R8", 'b"\\x04PING"', "lit_ping()", 1), ("R8", 'b"\\x04PONG"', "lit_pong()", 1),
-            ("R8", 'b"\\x05READY"', "lit_ready()", 1), ("R8", 'b"\\x05ERROR"', "lit_error()", 1),
-            ("R8", "let body = msg.data()?;", "let body = match msg.data() { Some(b) => b, None => { return None; } };", 1)]),
+     extra=[("R8", "let body = msg.data()?;", "let body = match msg.data() { Some(b) => b, None => { return None; } };", 1)]),
 ]
 
 FNS = {p.name: p for p in parts if isinstance(p, Fn)}
